@@ -6,6 +6,7 @@ import (
 	"encoding/json"
 	"fmt"
 	"sync"
+	"time"
 
 	"cedarverif/internal/core"
 	"cedarverif/internal/framereplay"
@@ -29,7 +30,7 @@ func run(c *core.Ctx) {
 		return
 	}
 
-	mcs := []string{"MC_C01_comp.cfg", "MC_C01_sizes.cfg"}
+	mcs := []string{"MC_C01_comp_quick.cfg", "MC_C01_sizes.cfg"}
 	gens := []*genJob{
 		{cfg: "Gen_C01_sizes_quick.cfg", dribble: []int{0}},
 		{cfg: "Gen_C01_comp_cuts.cfg", dribble: []int{0, 1}},
@@ -41,7 +42,8 @@ func run(c *core.Ctx) {
 	if c.Thorough() {
 		mcs = []string{"MC_C01_comp.cfg", "MC_C01_sizes_thorough.cfg"}
 		gens = []*genJob{
-			{cfg: "Gen_C01_sizes_thorough.cfg", dribble: []int{0}},
+			{cfg: "Gen_C01_sizes_pairs.cfg", dribble: []int{0}},
+			{cfg: "Gen_C01_sizes_writes.cfg", dribble: []int{0}},
 			{cfg: "Gen_C01_comp_full.cfg", dribble: []int{0, 1}},
 			{cfg: "Gen_C01_comp_pairs.cfg", dribble: []int{0, 1, 2}},
 			{cfg: "Gen_C01_sizes_sim.cfg", dribble: []int{0, 4096}, opt: tlc.Options{Simulate: "num=1500", Depth: 40, Seed: c.Seed}},
@@ -54,7 +56,7 @@ func run(c *core.Ctx) {
 		wg.Add(1)
 		go func(cfg string) {
 			defer wg.Done()
-			kit.ModelCheck(c, "Framing.tla", cfg, tlc.Options{Workers: 6})
+			kit.ModelCheck(c, "Framing.tla", cfg, tlc.Options{Workers: 8, Timeout: 20 * time.Minute})
 		}(cfg)
 	}
 	for _, g := range gens {
@@ -103,6 +105,10 @@ func run(c *core.Ctx) {
 	}
 	if st.SenderLenient > 0 {
 		c.Note(fmt.Sprintf("observation (not a violation): in %d behaviours the real sender accepted a frame longer than Max on the wire and the real receiver accepted it too", st.SenderLenient))
+	}
+	if st.FormatDeviations > 0 {
+		c.Set("reference_format_deviations", st.FormatDeviations)
+		c.Note(fmt.Sprintf("observation (outside C01, see C12): in %d behaviours two real endpoints round-trip correctly but one side differs from the reference codec's wire format", st.FormatDeviations))
 	}
 	c.Set("exhaustive", true)
 	c.Set("rule", "behaviours = complete runs of Gen_Framing printed by TLC: (i) every sequence of <=2 messages (quick: second only after a 1-byte first) of one write each over the critical size set {0,1,4095..4097,16383..16385,Max-33..Max-31,Max-17..Max-15,Max-1..Max+1,2Max+5} plus typed string lengths, x 2 encryption modes x 3 sender APIs x 3 receiver APIs, plus seeded simulation of <=2 messages x <=3 writes (thorough: all pairs, all 2-write patterns); (ii) every composition of a 1..6 byte message into frames through SendPartialMessage/SendMessage and Message.PutBytes+FlushFrame, every composition of its reads, pairs of 0..2 byte messages with zero-length writes. Each behaviour x connection variant (whole reads / 1..3-byte dribble) is one evaluation made of three passes (real sender -> reference parser/decryptor; real sender -> real receiver; reference-built frames at the model's cuts -> real receiver); non-trivial = at least one message completely sent")
